@@ -102,21 +102,15 @@ fn receive_frames(wire: Vec<u8>) -> Option<Vec<Frame>> {
     Some(out)
 }
 
-/// what the parser can carry as a field
-fn parseable(fields: &Fields) -> bool {
-    fields.iter().all(|(k, v)| {
-        !k.is_empty()
-            && k.iter().all(|b| b.is_ascii_alphabetic() || *b == b'_' || *b == b'-')
-            && k != b"binary"
-            && !v.contains(&b'\n')
-            && std::str::from_utf8(v).is_ok()
-    })
-}
+/// field names the protocol parser must reject (the typed layer relies on it: `Tag::try_from(..)
+/// .unwrap()` in the song and list decoders); the model side decides which they are
+pub const ALIEN_KEYS: &[&str] = &[
+    "R128_TRACK_GAIN", "mp3gain", "Title2", "1", "x.y", "Ti tle", "Artist1", "a:b", "Täg", "disc#", "0Album", "Track9",
+];
 
+/// whether the *real* parser carries these fields as they are is decided by the real parser (below);
+/// the model side decides it with its own definition (`Driver.Typed.parseable`)
 fn single_frame(fields: &Fields, bin: &Option<Vec<u8>>) -> Option<Frame> {
-    if !parseable(fields) {
-        return None;
-    }
     let mut wire = Vec::new();
     wire_fields(&mut wire, fields, bin);
     wire.extend_from_slice(b"OK\n");
@@ -137,9 +131,6 @@ fn list_frames(frames: &[Fields]) -> Option<Vec<Frame>> {
     if frames.is_empty() {
         return Some(Vec::new());
     }
-    if !frames.iter().all(parseable) {
-        return None;
-    }
     let mut wire = Vec::new();
     for f in frames {
         wire_fields(&mut wire, f, &None);
@@ -149,6 +140,13 @@ fn list_frames(frames: &[Fields]) -> Option<Vec<Frame>> {
     let fs = receive_frames(wire)?;
     if fs.len() != frames.len() {
         return None;
+    }
+    // the parser must hand back exactly what was sent
+    for (f, want) in fs.iter().zip(frames) {
+        let got: Fields = f.fields().map(|(k, v)| (k.as_bytes().to_vec(), v.as_bytes().to_vec())).collect();
+        if &got != want {
+            return None;
+        }
     }
     Some(fs)
 }
@@ -1159,6 +1157,8 @@ fn soup_frame(r: &mut Rng) -> (Fields, Option<Vec<u8>>) {
             f[r.below(f.len())].0.clone() // duplicate key
         } else if r.chance(1, 10) {
             gen_word(r, 1, 10).into_bytes()
+        } else if r.chance(1, 40) {
+            r.pick(ALIEN_KEYS).as_bytes().to_vec()
         } else {
             r.pick(KNOWN_KEYS).as_bytes().to_vec()
         };
@@ -1183,6 +1183,12 @@ fn mutate(r: &mut Rng, f: &mut Fields) {
             continue;
         }
         let p = r.below(f.len());
+        if r.chance(1, 40) {
+            // a field name outside the parser's alphabet: the frame must not reach the typed layer
+            let q = r.below(f.len() + 1);
+            f.insert(q, (r.pick(ALIEN_KEYS).as_bytes().to_vec(), r.pick(SOUP_VALUES).as_bytes().to_vec()));
+            continue;
+        }
         match r.below(8) {
             0 | 1 | 2 => f[p].1 = r.pick(SOUP_VALUES).as_bytes().to_vec(),
             3 => {
